@@ -1,35 +1,21 @@
-(* Entry points of the executable model: one sx in, one sx out.
-   Case shape:  L (A op :: args).  Result: r_ok x | r_exc code | r_skip | sx_err (undecodable case). *)
+(* Entry point of the executable model: one sx in, one sx out.
+   Case shape:  L (A op :: args).  Result: r_ok x | r_exc code | r_skip | sx_err (undecodable case).
+   Op-code ranges:  1 ascii self-check | 10-19 month | 20-29 entry ops | 30-39 library ops | 40-49 field sorting/keys |
+   50-59 block sorting | 60-69 writer | 70-79 stack | 80-99 names | 100-109 enclosing | 110-119 interpolate |
+   120-129 latex wrapper | 130-149 splitter | 150-159 round trip | 160-179 heap *)
 From Coq Require Import List NArith ZArith Bool.
-From BP Require Import Base.Chars Base.Sx Model.Blocks Run.Codec.
-From BP Require Import Model.Month.
+From BP Require Import Base.Chars Base.Sx Run.Codec.
+From BP Require Import Run.RunMonth.
 Import ListNotations.
 Local Open Scope Z_scope.
 
-Definition dec_mkind (x : sx) : option mkind :=
-  match x with A 0 => Some MInt | A 1 => Some MAbbrev | A 2 => Some MLong | _ => None end.
-
-Definition run_month (args : list sx) : sx :=
-  match args with
-  | [ks; b] =>
-      match as_list dec_mkind ks, dec_block b with
-      | Some kinds, Some blk =>
-          match fold_left (fun (acc : bres) k => match acc with BVal x => month_entry k x | o => o end)
-                          kinds (BVal blk) with
-          | BVal b' => r_ok (enc_block b')
-          | BRaise => r_exc 1
-          | BSkip => r_skip
-          end
-      | _, _ => sx_err
-      end
-  | _ => sx_err
-  end.
+Definition in_range (lo hi op : Z) : bool := (lo <=? op) && (op <=? hi).
 
 Definition run_case (x : sx) : sx :=
   match x with
   | L (A op :: args) =>
       if op =? 1 then match args with [n] => match as_N n with Some n' => r_ok (sN (asc n')) | None => sx_err end | _ => sx_err end
-      else if op =? 10 then run_month args
+      else if in_range 10 19 op then run_month op args
       else sx_err
   | _ => sx_err
   end.
